@@ -822,13 +822,28 @@ func hsOpenClientFrame(authKey, pkt []byte) (salt int64, body []byte, why string
 
 // ---- (4) running the real client ---------------------------------------------------------------------
 
-// hsStore records every Store; Load finds nothing.
+// hsStore records every Store; Load finds nothing. SessionLoader is an interface anyone may implement, and
+// there is more than one way of saying "nothing stored" (Mode):
+//   "" / "notfound"   (nil, *errs.NotFoundError)   what the file loader of the repository does
+//   "nil"             (nil, nil)                   what a store that simply returns what it holds does
+//   "fail"            (nil, some other error)      the storage cannot be read: NewMTProto has to give up
 type hsStore struct {
 	mu     sync.Mutex
+	Mode   string
 	Stores []session.Session
 }
 
-func (s *hsStore) Load() (*session.Session, error) { return nil, errs.NotFound("session", "verif") }
+var hsStoreModes = []string{"notfound", "nil", "fail"}
+
+func (s *hsStore) Load() (*session.Session, error) {
+	switch s.Mode {
+	case "nil":
+		return nil, nil
+	case "fail":
+		return nil, fmt.Errorf("session storage is not reachable")
+	}
+	return nil, errs.NotFound("session", "verif")
+}
 func (s *hsStore) Store(x *session.Session) error {
 	s.mu.Lock()
 	defer s.mu.Unlock()
@@ -960,13 +975,23 @@ func hsPanicSite() string {
 var hsAftermath bool
 
 func hsExchange(d *hsDraws, pub *rsa.PublicKey, secrets *hsSecrets, replies [][]byte, probe bool) *hsRun {
+	return hsExchangeOn("notfound", d, pub, secrets, replies, probe)
+}
+
+// hsExchangeOn: the same with a session store that says "nothing stored" in the given way (hsStore.Mode).
+func hsExchangeOn(storeMode string, d *hsDraws, pub *rsa.PublicKey, secrets *hsSecrets, replies [][]byte, probe bool) *hsRun {
 	srv := hsListen()
 	run := &hsRun{Addr: srv.Addr()}
 	run.Srv = srv.arm(secrets, replies)
-	store := &hsStore{}
+	store := &hsStore{Mode: storeMode}
 	m, err := mtproto.NewMTProto(mtproto.Config{SessionStorage: store, ServerHost: srv.Addr(), PublicKey: pub})
 	if err != nil {
+		// no client: nothing was sent, nothing can have been stored
 		run.Outcome = "err:new"
+		run.ErrText = err.Error()
+		srv.Close()
+		snap := *run.Srv
+		run.Srv = &snap
 		return run
 	}
 	// crypto/rand.Int(Reader, 2^2048) reads exactly 256 bytes and takes them as the big-endian value
@@ -1201,6 +1226,47 @@ func hsKeyGen(r *Rand) *rsa.PrivateKey {
 		}
 		return &rsa.PrivateKey{PublicKey: rsa.PublicKey{N: n, E: 65537}, D: d, Primes: []*big.Int{p, q}}
 	}
+}
+
+// hsKeyPool: n RSA-2048 keys from the run's PRNG (about a third of a second each). Both key-exchange checks
+// draw the server key of every exchange from such a pool, so that consecutive exchanges of one process use
+// DIFFERENT keys: whatever the client keeps between exchanges about "the" server key is then wrong.
+func hsKeyPool(r *Rand, n int) []*rsa.PrivateKey {
+	var ks []*rsa.PrivateKey
+	for i := 0; i < n; i++ {
+		ks = append(ks, hsKeyGen(r))
+	}
+	return ks
+}
+
+// hsKeyObj: how the caller holds the public key it configures its clients with, over several exchanges.
+//   fresh   a new rsa.PublicKey object for every exchange
+//   slot    ONE object, assigned the next key before each exchange (*slot = rsa.PublicKey{N, E})
+//   setn    ONE object whose modulus big.Int is overwritten in place (slot.N.Set(n); slot.E = e)
+type hsKeyObj struct {
+	Mode string
+	slot *rsa.PublicKey
+}
+
+var hsKeyObjModes = []string{"fresh", "slot", "setn"}
+
+func (k *hsKeyObj) next(pub *rsa.PublicKey) *rsa.PublicKey {
+	switch k.Mode {
+	case "slot":
+		if k.slot == nil {
+			k.slot = &rsa.PublicKey{}
+		}
+		*k.slot = rsa.PublicKey{N: new(big.Int).Set(pub.N), E: pub.E}
+		return k.slot
+	case "setn":
+		if k.slot == nil {
+			k.slot = &rsa.PublicKey{N: new(big.Int)}
+		}
+		k.slot.N.Set(pub.N)
+		k.slot.E = pub.E
+		return k.slot
+	}
+	return &rsa.PublicKey{N: new(big.Int).Set(pub.N), E: pub.E}
 }
 
 // hsRefRSACipher: the number a client following the description sends as encrypted_data for these
